@@ -36,7 +36,9 @@ static std::string run_case(const Family& f, int path, const Bytes& data, bool i
   ledger().errors.clear(); ledger().refused = 0; items().errors.clear();
   const size_t live0 = ledger().live.size(); const long items0 = items().live; const int a0 = asan_errors();
   std::string outcome;
-  uint8_t* blk = (uint8_t*)malloc(data.size()); if (!data.empty()) memcpy(blk, data.data(), data.size());
+  // exact-size heap block; ASan rounds malloc(0) up to one addressable byte, so an empty buffer is the end of a 1-byte block
+  uint8_t* raw = (uint8_t*)malloc(data.empty() ? 1 : data.size()); uint8_t* blk = data.empty() ? raw + 1 : raw;
+  if (!data.empty()) memcpy(blk, data.data(), data.size());
   {
     Sched sc(0, 4321);   // some readers construct objects that draw a coin (REQ compactors)
     ObjP o;
@@ -55,14 +57,16 @@ static std::string run_case(const Family& f, int path, const Bytes& data, bool i
         // usability script: every step may throw, none may misbehave
         try { o->obs(); } catch (const std::exception&) {}
         try { o->ser(0); } catch (const std::exception&) {}
-        try { if (o->ncont()) o->cont(0); } catch (const std::exception&) {}
+        try { o->exercise(); } catch (const std::exception&) {}
+        for (size_t ci = 0; ci < o->ncont(); ++ci) { try { o->cont(ci); } catch (const std::exception&) {} }
         try { o->obs(); } catch (const std::exception&) {}
+        try { o->ser(0); } catch (const std::exception&) {}
         outcome = "accepted-usable";
       }
       try { o.reset(); } catch (...) { outcome = "destructor-threw"; }
     }
   }
-  free(blk);
+  free(raw);
   if (asan_errors() != a0) { outcome = "asan-report"; detail = "AddressSanitizer reported an invalid access (see log)"; }
   else if (ledger().refused) { outcome = "allocation-above-cap"; detail = ledger().errors.empty() ? "" : ledger().errors[0]; }
   else if (!ledger().errors.empty()) { outcome = "allocator-misuse"; detail = ledger().errors[0]; }
